@@ -167,7 +167,11 @@ func prep(s string) string {
 	return b.String()
 }
 
+var reDollarIdent = regexp.MustCompile(`([A-Za-z0-9_])\$([0-9])`)
+
 func parseSpecExpr(s string) ast.Expr {
+	// go/ssa's synthetic names (jump$1) are written as jump_S_1 for the Go parser
+	s = reDollarIdent.ReplaceAllString(s, "${1}_S_${2}")
 	p := prep(s)
 	e, err := parser.ParseExpr(p)
 	if err != nil {
@@ -1111,6 +1115,36 @@ func (x *Ex) call(v *ast.CallExpr, want *Sort) *T {
 			ref = sapp("sl_arr", a.S)
 		}
 		return mk(sapp("and", sapp(">=", ref, oldNext.S), sapp("<", ref, x.cur.next().S)), sBool)
+	case "noKeys":
+		argN(0)
+		so := arrSort(sStr, sBool)
+		return mk("((as const "+so.SMT()+") false)", so)
+	case "nilMapVals":
+		argN(0)
+		so := arrSort(sStr, sStr)
+		nv := "nilvals$" + so.KeyS()
+		x.enc.decl(nv, fmt.Sprintf("(declare-const %s %s)", nv, so.SMT()))
+		return mk(nv, so)
+	case "elemsArr":
+		// the element array of a slice (with sliceOff and len: the slice's view of memory)
+		argN(1)
+		a := x.tr(v.Args[0], sSlice)
+		var et types.Type
+		if a.GoT != nil {
+			if sl, ok := types.Unalias(a.GoT).Underlying().(*types.Slice); ok {
+				et = sl.Elem()
+			}
+		}
+		if et == nil {
+			fail("elemsArr: not a slice")
+		}
+		es := x.enc.sortOf(et)
+		h := x.state().get(elemHeap(es), arrSort(sRef, arrSort(sI64, es)))
+		return mk(sapp("select", h.S, sapp("sl_arr", a.S)), arrSort(sI64, es))
+	case "sliceOff":
+		argN(1)
+		a := x.tr(v.Args[0], sSlice)
+		return mk(sapp("sl_off", a.S), sI64)
 	case "byteStr":
 		// the one-byte string holding c
 		argN(1)
